@@ -7,7 +7,8 @@ from common import (coqchk, Rng, assumptions, coq_eval, coq_make, harness_build,
 PROP = "C16"
 THEOREMS = ["C16_model_smoke", "C16_invariant_all_histories", "C16_own_reply", "C16_no_cross", "C16_duplicates_ignored", "C16_late_ignored",
             "C16_resolved_final", "C16_window_bound", "C16_written_means_registered", "C16_no_hang", "C16_capacity", "C16_leak_refuted",
-            "C16_ids_distinct", "C16_ids_nonzero", "C16_ping"]
+            "C16_ids_distinct", "C16_ids_nonzero", "C16_ping",
+            "C16_reconnect_wait_bounded", "C16_reconnect_wait_bounded_from_any_delay", "C16_uncapped_jitter_unbounded_refuted"]
 PRELUDE = "From NW Require Import Base.Bytes Model.ClientEngine Conf.CodecConf Conf.ClientConf.\n"
 RELEASES = "true"     # does the implementation release the table entry/permit on timeout? (model parameter, see Props/C16.v)
 
@@ -290,6 +291,18 @@ def run(tier, replay=None):
         cases += [{"max_inflight": 4, "timeout_ms": 300, "ops": [{"t": "ids", "count": 70000}], "ids_probe": True}]
         cases += [gen_case(r, r.randint(6, 40)) for _ in range(600 if thorough else 80)]
         search(cases, "q")
+        # the peer is away for good: a request fails within the time the configured back-off allows (delays capped at
+        # backoff_max_delay, jitter at most the capped delay), it does not hang while holding the client's mutex
+        import linklib as ll
+        uc = ll.unreachable_cases(r, 12 if thorough else 5)
+        uobs, uout = ll.run_client(uc, tag="c16un")
+        if uobs is None:
+            violations.append(("s2mclient harness crashed or hung with the peer away: " + uout[-300:], uc[0]))
+        else:
+            stats["unreachable_peer_cases"] = len(uc)
+            for c, ob in zip(uc, uobs):
+                for what in ll.unreachable_monitor(c, ob):
+                    violations.append((what, c))
         if (broken or disagreements) and not violations:
             log("proof/correspondence broken; extended search")
             rr = Rng(seed() + 7919)
